@@ -279,7 +279,9 @@ func genNegative(t *rapid.T, locs []c17loc) c17Probe {
 			if a := l.node.Get(kw); a != nil && a.K == jv.Arr && len(a.A) > 0 {
 				cands = append(cands,
 					neg{"/" + kw + "/+0", "signed index"}, neg{"/" + kw + "/-0", "signed index"}, neg{"/" + kw + "/00", "leading zero"},
-					neg{fmt.Sprintf("/%s/%d", kw, len(a.A)), "index == length"}, neg{"/" + kw + "/0x0", "hex index"})
+					neg{fmt.Sprintf("/%s/%d", kw, len(a.A)), "index == length"}, neg{"/" + kw + "/0x0", "hex index"},
+					neg{"/" + kw + "/18446744073709551616", "index 2^64 (wraps to 0 in 64-bit arithmetic)"}, neg{"/" + kw + "/9223372036854775808", "index 2^63"},
+					neg{"/" + kw + "/340282366920938463463374607431768211456", "index 2^128"}, neg{"/" + kw + "/4294967296", "index 2^32"})
 				if len(a.A) > 1 {
 					cands = append(cands, neg{"/" + kw + "/01", "leading zero"}, neg{"/" + kw + "/+1", "signed index"})
 				}
